@@ -24,7 +24,12 @@ import (
 
 const nRes = 4
 
-type tally struct{ pass, block, complete, errs, cbPass, cbBlock, cbDone int64 }
+type tally struct {
+	pass, block, complete, errs, cbPass, cbBlock, cbDone int64
+	// boom: tokens of requests that were passed because a rule check panicked (and then exited): the library may count
+	// each of them as one pass + one completion, or not at all
+	boom int64
+}
 
 var tallies [nRes + 1]tally // last = inbound
 var chain *base.SlotChain
@@ -81,17 +86,18 @@ func one(rng *rand.Rand, res int, inbound bool, batch uint32, withArgs, traceErr
 		opts = append(opts, sentinel.WithAttachment("boom", true))
 	}
 	e, b := sentinel.Entry(names[res], opts...)
-	if bm {
-		if e != nil {
-			e.Exit()
-		}
-		return e != nil
-	}
 	add := func(f func(t *tally) *int64, n int64) {
 		atomic.AddInt64(f(&tallies[res]), n)
 		if inbound {
 			atomic.AddInt64(f(&tallies[nRes]), n)
 		}
+	}
+	if bm {
+		if e != nil {
+			add(func(t *tally) *int64 { return &t.boom }, int64(batch))
+			e.Exit()
+		}
+		return e != nil
 	}
 	if b != nil {
 		add(func(t *tally) *int64 { return &t.block }, int64(batch))
@@ -212,9 +218,17 @@ func main() {
 				n    string
 				want int64
 			}{{base.MetricEventPass, "pass", t.pass}, {base.MetricEventBlock, "block", t.block}, {base.MetricEventComplete, "complete", t.complete}, {base.MetricEventError, "error", t.errs}} {
-				if got := node.GetSum(x.ev); got != x.want {
-					bad("counter-mismatch:"+x.n, fmt.Sprintf("%s GetSum(%s)=%d, client tally %d", name, x.n, got, x.want))
+				got := node.GetSum(x.ev)
+				slack := t.boom // (requests passed by a panicking rule check: counted as pass + completion, or not at all)
+				if x.ev == base.MetricEventBlock {
+					slack = 0
 				}
+				if got < x.want || got > x.want+slack {
+					bad("counter-mismatch:"+x.n, fmt.Sprintf("%s GetSum(%s)=%d, client tally %d (+ at most %d tokens of requests passed by a panicking rule check)", name, x.n, got, x.want, slack))
+				}
+			}
+			if dp, dc := node.GetSum(base.MetricEventPass)-t.pass, node.GetSum(base.MetricEventComplete)-t.complete; dp != dc {
+				bad("counter-mismatch:pass-vs-complete", fmt.Sprintf("%s: %d tokens of requests passed by a panicking rule check were counted as passed but %d as completed", name, dp, dc))
 			}
 			if t.cbDone != t.cbPass {
 				bad("callbacks:completions-vs-passes", fmt.Sprintf("%s: %d pass callbacks, %d completion callbacks", name, t.cbPass, t.cbDone))
